@@ -162,7 +162,7 @@ func C07(tier string) {
 	r.NotExhaustive()
 	small := append(smallSeeds(), corruptSeeds()...)
 	repo := repoImages()
-	r.Rule(fmt.Sprintf("seeds: %d small synthetic files (one per format variant and one per parser error branch, empty input) and the %d repository images; for every seed: EVERY end position 0..len (every position up to 8 KiB and the last 64 for larger files) x 4 endings {EOF, data+EOF, I/O error, data+I/O error} x delivery {all at once, 1 byte per call; thorough adds 2,3,7,4095,4097} x 4 loaders x drains {io.ReadAll, 1-byte reads, 4097-byte reads}; sources of other dynamic types (bytes.Reader, strings.Reader, bufio.Reader, bytes.Buffer, os.File) handed over at offset 0 and positioned 1/16/5000 bytes into their data; thorough adds a depth-first exploration of all reader answer sequences (short reads, data+EOF, errors) with <= 2 deviations on the small seeds; distinct = (seed, loader, end position, ending) combinations", len(small), len(repo)))
+	r.Rule(fmt.Sprintf("seeds: %d small synthetic files (one per format variant and one per parser error branch, empty input) and the %d repository images; for every seed: EVERY end position 0..len (every position up to 8 KiB and the last 64 for larger files) x 4 endings {EOF, data+EOF, I/O error, data+I/O error} x delivery {all at once, 1 byte per call; thorough adds 2,3,7,4095,4097} x 4 loaders x drains {io.ReadAll, 1-byte reads, 4097-byte reads}; every sequence of up to 4 (thorough 5) operations {Load(loader, file), drain(any earlier stream)} over five small files in one process; sources of other dynamic types (bytes.Reader, strings.Reader, bufio.Reader, bytes.Buffer, os.File) handed over at offset 0 and positioned 1/16/5000 bytes into their data; thorough adds a depth-first exploration of all reader answer sequences (short reads, data+EOF, errors) with <= 2 deviations on the small seeds; distinct = (seed, loader, end position, ending) combinations", len(small), len(repo)))
 	r.Assume("truncation at t and an I/O error at position p are alternative endings of the same source (bytes beyond the end are never observed), so positions x endings is the full matrix of the quantifier")
 
 	chunks := []int{0, 1}
@@ -315,6 +315,13 @@ func C07(tier string) {
 	})
 	r.Eval(capEvalsA.Load())
 	r.Set("source_type_executions", capEvalsA.Load())
+
+	// operation sequences: a stream may be drained after any number of later Loads
+	sd := 4
+	if tier == "thorough" {
+		sd = 5
+	}
+	loaderSequences(r, sd, "sequence", false, true)
 
 	// thorough: answer-sequence exploration with errors on the small seeds
 	if tier == "thorough" {
